@@ -12,6 +12,7 @@ import (
 	"time"
 
 	"github.com/nextdns/nextdns/resolver"
+	"github.com/nextdns/nextdns/resolver/endpoint"
 	"github.com/nextdns/nextdns/resolver/query"
 )
 
@@ -24,6 +25,62 @@ type gateUpstream struct {
 	maxActive int32
 	gate      chan struct{}
 	mu        sync.Mutex
+	// d53: the REAL plain-DNS resolver (resolver.DNS -> manager -> DNS53.resolve) pointed at a
+	// loopback server that answers over UDP with the TC bit set and whose TCP side accepts
+	// connections and never answers (queries named d53tc.*)
+	d53 resolver.Resolver
+}
+
+// startTruncatingDNS: UDP answers = the query's header with QR and TC set; TCP: accept and stall.
+func startTruncatingDNS() (addr string, stop func()) {
+	pc, err := net.ListenPacket("udp", "127.0.0.1:0")
+	if err != nil {
+		return "", func() {}
+	}
+	addr = pc.LocalAddr().String()
+	tl, terr := net.Listen("tcp", addr)
+	var held []net.Conn
+	var hmu sync.Mutex
+	if terr == nil {
+		go func() {
+			for {
+				c, err := tl.Accept()
+				if err != nil {
+					return
+				}
+				hmu.Lock()
+				held = append(held, c)
+				hmu.Unlock()
+			}
+		}()
+	}
+	go func() {
+		buf := make([]byte, 4096)
+		for {
+			n, from, err := pc.ReadFrom(buf)
+			if err != nil {
+				return
+			}
+			if n < 12 {
+				continue
+			}
+			rep := append([]byte{}, buf[:n]...)
+			rep[2] = 0x83 // QR, TC, RD
+			rep[3] = 0x80
+			_, _ = pc.WriteTo(rep, from)
+		}
+	}()
+	return addr, func() {
+		pc.Close()
+		if tl != nil {
+			tl.Close()
+		}
+		hmu.Lock()
+		for _, c := range held {
+			c.Close()
+		}
+		hmu.Unlock()
+	}
 }
 
 func (g *gateUpstream) Resolve(ctx context.Context, q query.Query, buf []byte) (int, resolver.ResolveInfo, error) {
@@ -32,6 +89,10 @@ func (g *gateUpstream) Resolve(ctx context.Context, q query.Query, buf []byte) (
 		kind = kind[:i]
 	}
 	switch kind {
+	case "d53tc":
+		if g.d53 != nil {
+			return g.d53.Resolve(ctx, q, buf)
+		}
 	case "slow":
 		n := atomic.AddInt32(&g.active, 1)
 		for {
@@ -63,7 +124,7 @@ func kindQuery(id int, kind string) []byte {
 	return append(hdr, body...)
 }
 
-var capEvents = []string{"udp-ok", "udp-err", "udp-timeout", "udp-panic", "udp-small", "udp-malformed",
+var capEvents = []string{"udp-ok", "udp-err", "udp-timeout", "udp-panic", "udp-small", "udp-malformed", "udp-d53tc", "tcp-d53tc",
 	"tcp-ok", "tcp-err", "tcp-panic", "tcp-small", "tcp-midframe", "tcp-idle-close", "tcp-timeout", "tcp-pipeline"}
 
 func fireAndForgetUDP(addr string, p []byte) {
@@ -82,6 +143,14 @@ func runCap(addr string, g *gateUpstream, k int, events []string) string {
 			_, _ = udpExchange(addr, kindQuery(id, "ok"), 500*time.Millisecond)
 		case "udp-err":
 			_, _ = udpExchange(addr, kindQuery(id, "err"), 500*time.Millisecond)
+		case "udp-d53tc":
+			_, _ = udpExchange(addr, kindQuery(id, "d53tc"), 700*time.Millisecond)
+		case "tcp-d53tc":
+			t := &tcpClient{}
+			_, _ = t.exchange(addr, kindQuery(id, "d53tc"), 700*time.Millisecond)
+			if t.c != nil {
+				t.c.Close()
+			}
 		case "udp-timeout":
 			_, _ = udpExchange(addr, kindQuery(id, "timeout"), 700*time.Millisecond)
 		case "udp-panic":
@@ -210,6 +279,19 @@ func init() {
 		r := NewRng(c.seed)
 		one := func(k int, events []string) error {
 			g := &gateUpstream{gate: make(chan struct{})}
+			d53addr, d53stop := startTruncatingDNS()
+			defer d53stop()
+			if d53addr != "" {
+				ep := &endpoint.DNSEndpoint{Addr: d53addr}
+				g.d53 = &resolver.DNS{Manager: &endpoint.Manager{
+					Providers:      []endpoint.Provider{endpoint.StaticProvider([]endpoint.Endpoint{ep})},
+					InitEndpoint:   ep,
+					ErrorThreshold: 1 << 30,
+					EndpointTester: func(endpoint.Endpoint) endpoint.Tester {
+						return func(ctx context.Context, testDomain string) error { return nil }
+					},
+				}}
+			}
 			up := &scripted{}
 			_ = up
 			srv, err := startServerWith(g, uint(k), 300*time.Millisecond)
